@@ -26,6 +26,7 @@ import struct
 
 from ..lib import repo
 from ..sim import sched as S
+from ..translate import threads as threads_t
 
 ID = 'C14'
 TARGETS = ['PyIpmi.Props.C14', 'drv_c14']
@@ -54,13 +55,18 @@ ASSUMPTIONS = [
     'correctly; loss, delay, duplication and stale frames belong to C04',
     'model covers max_retries = 0 and unbridged targets (the configuration explored)',
 ]
-TRUSTED = ['harness/sim/sched.py', 'harness/props/c14.py (fake socket, reference BMC, access wrappers)']
+TRUSTED = ['harness/translate/threads.py', 'harness/sim/sched.py', 'harness/props/c14.py (fake socket, reference BMC, access wrappers)']
 
 PASSWORD = b'secret'
 SID = 0x02030405
 
 
 # ------------------------------------------------------------------------- reference BMC
+
+def translate(ctx):
+    """lock scope / packing place / sequence updates / keep-alive callable, from the AST of the working tree"""
+    ctx.extra['source_shape'] = threads_t.generate()
+
 def _csum(bs):
     return (-sum(bs)) & 0xff
 
